@@ -530,9 +530,9 @@ pub fn check() -> PropertyCheck {
             "forward loss = first awaited probe of a round after which every higher-TTL probe is awaited (and one exists); later awaited probes of that round are backward loss (doc comments of is_forward_loss)",
         ],
         subs: vec![
-            Box::new(Pbt { name: "synthetic", quick: 30_000, thorough: 3_000_000, strat, test, max_shrink: 8000 }),
+            Box::new(Pbt { name: "synthetic", quick: 100_000, thorough: 3_000_000, strat, test, max_shrink: 8000 }),
             Box::new(Pbt { name: "synthetic-long", quick: 200, thorough: 20_000, strat: long_strat, test, max_shrink: 3000 }),
-            Box::new(Pbt { name: "simulated", quick: 10_000, thorough: 500_000, strat: sim_strat, test: sim_test, max_shrink: 3000 }),
+            Box::new(Pbt { name: "simulated", quick: 40_000, thorough: 500_000, strat: sim_strat, test: sim_test, max_shrink: 3000 }),
         ],
     }
 }
